@@ -5,7 +5,7 @@
    Sys/FmmuLock.v - the shared map of logical address windows.  Validated on
    every run: the REAL run() / FMMULock in forked processes, gated at every
    operation on a shared object and interleaved by schedules. *)
-From Verif Require Import Sys.StartStop Sys.StartStop_proofs Sys.FmmuLock Sys.FmmuLock_proofs.
+From Verif Require Import Sys.StartStop Sys.StartStop_proofs Sys.FmmuLock Sys.FmmuLock_proofs Sys.FmmuBytes Sys.FmmuBytes_proofs.
 
 (* TWO participants, EVERY interleaving of their steps and every outcome of the random ethertype draws (a closed finite
    set of 463 states, closure and invariants checked by computation inside the kernel): at most one participant installs
@@ -50,3 +50,30 @@ Theorem C23_split_release_refuted :
   ~ NoDup (map snd (held (s_f s))).
 Proof. exact split_release_refuted. Qed.
 Print Assumptions C23_split_release_refuted.
+
+(* ---- the bytes of the map file (Sys/FmmuBytes.v: byte | (1 << k) and byte & ~(1 << k) as lock.py computes them).
+   C23_windows_distinct above is about a LIST of taken numbers; these carry it to the 64 bytes: a removal clears the bit of the
+   leaver's number and no other bit of the map, an allocation sets one bit and no other ... *)
+Theorem C23_remove_clears_only_own_bit : forall m a j, length m = 64%nat -> 0 <= a < 512 -> 0 <= j < 512 ->
+  testb (clear_bit m a) j = testb m j && negb (j =? a).
+Proof. exact clear_bit_spec. Qed.
+Print Assumptions C23_remove_clears_only_own_bit.
+
+Theorem C23_alloc_sets_only_own_bit : forall m a j, length m = 64%nat -> 0 <= a < 512 -> 0 <= j < 512 ->
+  testb (set_bit m a) j = testb m j || (j =? a).
+Proof. exact set_bit_spec. Qed.
+Print Assumptions C23_alloc_sets_only_own_bit.
+
+(* ... so that after ANY sequence of allocations and removals, starting from the empty file, the file still consists of 64 bytes,
+   and marks exactly the numbers that the abstract state (for which distinctness is proved) holds as used *)
+Theorem C23_map_bytes_refine : forall evs,
+  let '(m, h) := fold_left bstep evs (zeros, []) in
+  let s := fold_left fstep evs {| used := []; held := [] |} in
+  bytes_ok m /\ h = held s /\ Rmap m (used s).
+Proof. exact bytes_refine_fstate. Qed.
+Print Assumptions C23_map_bytes_refine.
+
+Example C23_map_bytes_nonvacuous :
+  let '(m, h) := fold_left bstep [Alloc 0 10; Alloc 1 12; Alloc 2 300; Release 1] (zeros, []) in
+  nth 1 m 0 = 4 /\ nth 37 m 0 = 16 /\ h = [(2, 300); (0, 10)] /\ testb m 10 = true /\ testb m 12 = false.
+Proof. vm_compute. repeat split. Qed.
